@@ -330,7 +330,7 @@ func VerifHarness_C09_length() {
 	stream := []byte("8=F\x019=")
 	stream = append(stream, d...)
 	stream = append(stream, []byte("\x0135=D\x0110=000\x01")...)
-	p := &parser{reader: &c12Uniform{data: stream, k: len(stream)}}
+	p := &parser{reader: &c12Uniform{data: stream, k: len(stream)}, bigBuffer: make([]byte, 96)}
 	b, err := p.ReadMessage()
 	if err == nil {
 		verifAssert(b != nil, "frame-or-error")
